@@ -63,6 +63,10 @@ EDITS = [
     ('Absolute: locals renamed', 'Threshold', 'GenTie_Threshold', THR,
      [(ABS_COMP, "        return [\n            c for c, nv in votelib.util.sorted_votes(votes)\n"
                  "            if nv > self.threshold or self.accept_equal and nv == self.threshold\n        ]\n")], 'holds'),
+    ('Absolute: unused local named like the attribute', 'Threshold', 'GenTie_Threshold', THR,
+     [(ABS_COMP, "        threshold = 0\n" + ABS_COMP)], 'holds'),
+    ('Absolute: local shadows the attribute', 'Threshold', 'GenTie_Threshold', THR,
+     [(ABS_COMP, "        threshold = 0\n" + ABS_COMP.replace("n_votes > self.threshold", "n_votes > threshold"))], 'rejects'),
     ('Absolute: helper function', 'Threshold', 'GenTie_Threshold', THR,
      [(ABS_COMP, "        def passes(n):\n            return n > self.threshold or (self.accept_equal and n == self.threshold)\n"
                  "        return [c for c, n in votelib.util.sorted_votes(votes) if passes(n)]\n")], 'rejects'),
